@@ -75,12 +75,12 @@ VALS = {
     "mid": {"lr": 1e-3, "lr_actor": 1e-3, "lr_critic": 2e-3, "batch_size": 5, "learn_step": 3},
 }
 EQ = {"low": 1.2e-4, "high": 9e-3, "mid": 1e-3}
-KIND_VALUES = {"created": ["mid", "mid", "mid"], "shared": ["low", "high", "mid"], "shared-eqlr": ["mid", "high", "low"],
+KIND_VALUES = {"created": ["mid", "mid", "mid"], "created-trained": ["mid", "mid", "mid"], "shared": ["low", "high", "mid"], "shared-eqlr": ["mid", "high", "low"],
                "clones": ["high", "high", "high"]}
 
 
 def kinds(algo):
-    return ["created", "shared", "clones"] + (["shared-eqlr"] if algo in hpo.ACTOR_CRITIC else [])
+    return ["created", "created-trained", "shared", "clones"] + (["shared-eqlr"] if algo in hpo.ACTOR_CRITIC else [])
 
 
 def bounds(tier):
@@ -90,6 +90,7 @@ def bounds(tier):
                  "current": ["min", "max", "mid", "min*1.01", "max*0.99"], "rand": RAND, "sequence_len": f"<={UNIT_DEPTH}"},
         "agent": {"algorithms": hpo.ALGOS, "hp_spec": hpo.HP_SPEC, "values": VALS, "eq_lr_values": EQ,
                   "kinds": {"created": "create_population(size=M), one shared config, identical (mid) values",
+                            "created-trained": "as created, but every member took one learn step first (optimizers hold Adam state)",
                             "shared": "one shared config, members low/high/mid", "clones": "agent(high) + clones",
                             "shared-eqlr": "actor-critic algorithms only, M=2, lr_actor is lr_critic"},
                   "population": [2, 3], "pick": "every configured hyper-parameter (randperm scripted)", "direction_draws": DIRS,
@@ -109,7 +110,7 @@ def tasks(tier, seed):
         w = {"MATD3": 4, "MADDPG": 3, "TD3": 3, "DDPG": 2}.get(algo, 1)
         for kind in kinds(algo):
             for M in (2, 3):
-                if kind == "shared-eqlr" and M == 3:
+                if kind in ("shared-eqlr", "created-trained") and M == 3:
                     continue
                 b = M * H * len(DIRS)
                 if q:
@@ -270,8 +271,13 @@ class Pop:
                 vals.append(v)
         else:
             vals = [dict(VALS[k]) for k in vk]
-        if kind == "created":
+        if kind in ("created", "created-trained"):
             self.agents = hpo.build(algo, vals[0], hpo.new_hp_config(algo), size=M)
+            if kind == "created-trained":
+                from ..fixtures import agents as A
+                for j, a in enumerate(self.agents):
+                    for r in range(getattr(a, "policy_freq", 1)):
+                        A.learn(a, A.batch_for(a, algo, "vector", seed=30 + j), seed=30 + j + r)
         elif kind in ("shared", "shared-eqlr"):
             cfg = hpo.new_hp_config(algo)
             self.agents = []
